@@ -36,7 +36,9 @@ class NeverComparable:
         return 'ARRAYLIKE'
 
 
-ELEMS = [0, None, '', False, 1, 1, 'x', (), 0.0, AlwaysEqual(), NeverComparable()]
+ELEMS = [0, None, '', False, 1, 1, 'x', (), 0.0, AlwaysEqual(), NeverComparable(),
+         # elements that are themselves exception objects / classes (e.g. results gathered with return_exceptions=True)
+         ValueError('payload'), StopIteration('payload'), aio.CancelledError('payload'), KeyError, StopAsyncIteration('payload')]
 TICK = 1 / 8
 
 
@@ -70,7 +72,9 @@ def run(case, max_steps=60000):
     boom = aio.CancelledError('source cancelled') if fk == 'cancel' else SrcBaseBoom('source failed') if fk == 'base' \
         else SrcBoom('source failed')
     out = {'got': [], 'exc': None, 'ticks': [], 'finished_at': None, 'boom': boom,
-           'produced': 0, 'started': None}
+           'produced': 0, 'started': None, 'got2': [], 'exc2': None}
+    pair = bool(case.get('pair'))         # a second bridge (over the reversed elements, never failing) alive at the same time
+    elems2 = list(reversed(elems))
     with World(schedule=case['sched'], trace=TRACE, modules=(A,), max_steps=max_steps) as w:
         sim = w.sim
 
@@ -96,6 +100,18 @@ def run(case, max_steps=60000):
             if f == n:
                 raise out['boom']
 
+        def gen2():
+            for e in elems2:
+                if d:
+                    sim.sleep(d)
+                yield e
+
+        async def agen2():
+            for e in elems2:
+                if d:
+                    await aio.sleep(d)
+                yield e
+
         if case['dir'] == 's2a':
             kind = src['kind']
             good = elems if f is None else elems
@@ -118,6 +134,20 @@ def run(case, max_steps=60000):
                         await aio.sleep(TICK)
                 tk = aio.ensure_future(ticker())
                 out['started'] = sim.now
+
+                async def second():
+                    g2 = gen2()
+                    w.keep.append(g2)
+                    try:
+                        async for x in A.to_async_iter(g2):
+                            out['got2'].append(x)
+                            if case['cdelay']:
+                                await aio.sleep(case['cdelay'])
+                    except BaseException as e:  # noqa
+                        if sim.aborted:
+                            raise
+                        out['exc2'] = e
+                t2 = aio.ensure_future(second()) if pair else None
                 try:
                     async for x in A.to_async_iter(make_source()):
                         out['got'].append(x)
@@ -128,6 +158,8 @@ def run(case, max_steps=60000):
                         raise
                     out['exc'] = e
                 out['finished_at'] = sim.now
+                if t2 is not None:
+                    await t2
                 out['workers_alive_at_finish'] = sum(len(e.busy()) for e in sim.executors)
                 tk.cancel()
 
@@ -139,10 +171,27 @@ def run(case, max_steps=60000):
                 out['started'] = sim.now
                 ag = agen()
                 w.keep.append(ag)
+                it2 = None
+                if pair:
+                    ag2 = agen2()
+                    w.keep.append(ag2)
+                    it2 = iter(A.to_sync_iter(ag2))     # default loop for the second bridge
+                    w.keep.append(it2)
                 try:
                     it = A.to_sync_iter(ag) if loop is None else A.to_sync_iter(ag, loop=loop)
                     for x in it:
                         out['got'].append(x)
+                        if it2 is not None:
+                            # lock-step (like zip): one element of the second bridge per element of the first
+                            try:
+                                out['got2'].append(next(it2))
+                            except StopIteration:
+                                it2 = None
+                            except BaseException as e:  # noqa
+                                if sim.aborted:
+                                    raise
+                                out['exc2'] = e
+                                it2 = None
                         if case['cdelay']:
                             sim.sleep(case['cdelay'])
                 except BaseException as e:  # noqa
@@ -150,6 +199,14 @@ def run(case, max_steps=60000):
                         raise
                     out['exc'] = e
                 out['finished_at'] = sim.now
+                if it2 is not None:
+                    try:
+                        for y in it2:
+                            out['got2'].append(y)
+                    except BaseException as e:  # noqa
+                        if sim.aborted:
+                            raise
+                        out['exc2'] = e
                 out['workers_alive_at_finish'] = sum(len(e.busy()) for e in sim.executors)
 
         hz = 60 + 4 * (n + 1) * (d + case['cdelay'] + TICK)
@@ -160,7 +217,7 @@ def run(case, max_steps=60000):
         sim.spawn(watchdog, name='watchdog', daemon=True)
         w.run([thread], names=['consumer'])
         hist = dict(out)
-        hist.update({'stop': classify_stop(sim), 'elems': elems,
+        hist.update({'stop': classify_stop(sim), 'elems': elems, 'elems2': elems2 if pair else None,
                      'thread_excs': [(t.name, t.exc) for t in sim.threads if t.exc is not None],
                      'workers_alive_at_end': sum(len(e.busy()) for e in sim.executors),
                      'nworkers': sum(len(e.workers) for e in sim.executors),
@@ -171,6 +228,7 @@ def run(case, max_steps=60000):
 
 def abbreviate(hist):
     return {'stop': hist['stop'], 'source': repr(hist['elems']), 'consumed': repr(hist['got']), 'exc': repr(hist['exc']),
+            'second_bridge': None if hist.get('elems2') is None else {'consumed': repr(hist['got2']), 'exc': repr(hist['exc2'])},
             'ticks': hist['ticks'][:12], 'finished_at': hist['finished_at'], 'helper_threads': hist['nworkers'],
             'alive_at_finish': hist.get('workers_alive_at_finish'),
             'blocked': hist['deadlock_report'] if hist['stop'] != 'finished' else None}
